@@ -16,6 +16,7 @@ inductive Val where
   | int (n : Int) | flt (x : Rat) | bool (b : Bool) | td (us : Int) | none
   | obj (key : List Bool)      -- an opaque object (a `Note` member …): only `==` / `!=` look at it, `key` names its equality class
   | enum (name : String)       -- an enum member named in the source (`HOPOState.TAP`)
+  | ints (l : List Int)        -- a sequence seen through one integer attribute of its elements (`self[i].tick`)
   deriving Repr, DecidableEq
 
 inductive BinOp where | add | sub | mul | truediv
@@ -40,6 +41,8 @@ inductive Expr where
   | or (a b : Expr)               -- on bools, short-circuit
   | isNone (a : Expr)             -- `a is None`
   | const (name : String)         -- a dotted name that resolves to an enum member
+  | len (a : Expr)                -- `len(seq)`
+  | idx (a : Expr) (i : Expr)     -- `seq[i].attr` on a sequence given by that attribute (Python indexing: negative from the end)
   deriving Repr, DecidableEq
 
 inductive Stmt where
@@ -47,6 +50,7 @@ inductive Stmt where
   | ifRaise (c : Expr) (exc : PyErr)      -- `if c: raise Exc(...)`
   | ifRet (c : Expr) (e : Expr)           -- `if c: return e`
   | ifElseRet (c : Expr) (a b : Expr)     -- `if c: return a` / `else: return b`
+  | forRangeIfRet (v : String) (lo hi : Expr) (c : Expr) (r : Expr)   -- `for v in range(lo, hi): if c: return r`
   | ret (e : Expr)
   deriving Repr, DecidableEq
 
@@ -176,6 +180,30 @@ def evalExpr (env : Env) : Expr → M Val
     | _ => unsupported "or on a non-bool"
   | .isNone a => evalExpr env a >>= fun v => .ok (.bool (v == .none))
   | .const name => .ok (.enum name)
+  | .len a => evalExpr env a >>= fun v =>
+    match v with
+    | .ints l => .ok (.int l.length)
+    | _ => unsupported "len"
+  | .idx a i => evalExpr env a >>= fun v => evalExpr env i >>= fun w =>
+    match v, w with
+    | .ints l, .int k =>
+      let j : Int := if k < 0 then k + l.length else k
+      if j < 0 then .error (.internal "IndexError")
+      else match l[j.toNat]? with
+        | some x => .ok (.int x)
+        | none => .error (.internal "IndexError")
+    | _, _ => unsupported "indexing"
+
+/-- `for v in range(k, k + n): if c: return r` — the value returned from inside, if any, and the environment afterwards
+    (the loop variable keeps its last value) -/
+def forLoop (evalC evalR : Env → M Val) (v : String) : Env → Int → Nat → M (Option Val × Env)
+  | env, _, 0 => .ok (none, env)
+  | env, k, n + 1 =>
+    evalC ((v, .int k) :: env) >>= fun c =>
+      match c with
+      | .bool true => evalR ((v, .int k) :: env) >>= fun r => .ok (some r, (v, .int k) :: env)
+      | .bool false => forLoop evalC evalR v ((v, .int k) :: env) (k + 1) n
+      | _ => .error (.internal "unsupported: condition")
 
 /-- a function body: straight-line guards, assignments, one return -/
 def evalBody (env : Env) : List Stmt → M Val
@@ -196,6 +224,14 @@ def evalBody (env : Env) : List Stmt → M Val
     | .bool true => evalExpr env a
     | .bool false => evalExpr env b
     | _ => unsupported "condition"
+  | .forRangeIfRet v lo hi c r :: rest => evalExpr env lo >>= fun a => evalExpr env hi >>= fun b =>
+    match a, b with
+    | .int a, .int b =>
+      forLoop (fun e => evalExpr e c) (fun e => evalExpr e r) v env a (b - a).toNat >>= fun res =>
+        match res.1 with
+        | some x => .ok x
+        | none => evalBody res.2 rest
+    | _, _ => unsupported "range bounds"
   | .ret e :: _ => evalExpr env e
 
 /-- run guards and assignments, give back the environment (for leaves that are a few statements of a longer method) -/
@@ -209,6 +245,7 @@ def execBody (env : Env) : List Stmt → M Env
     | _ => .error (.internal "unsupported: condition")
   | .ifRet _ _ :: _ => .ok env
   | .ifElseRet _ _ _ :: _ => .ok env
+  | .forRangeIfRet _ _ _ _ _ :: _ => .ok env
   | .ret _ :: _ => .ok env
 
 /-- the value a name holds after the statements ran -/
